@@ -37,9 +37,17 @@ def reexec(binary, v, count=5):
 def run(tier):
     t0 = time.time()
     budget = float(os.environ.get('VERIF_BUDGET_S', '100' if tier == 'quick' else '1200'))
-    binary = build()
     env = {'VERIF_TIER': tier, 'VERIF_DEADLINE': str(int(t0 + budget)), 'GOMAXPROCS': '1'}
-    rs = vlib.run_workers(binary, 'TestVerifC04', vlib.NCPU, env=env)
+    sched_error = None
+    try:
+        binary = build()
+        rs = vlib.run_workers(binary, 'TestVerifC04', vlib.NCPU, env=env)
+    except SystemExit as e:
+        # the scheduler tier calls getMessages directly; when it no longer builds (signature changed) the API
+        # tier below still decides what it can: a violation it demonstrates is reported, otherwise exit 3
+        if not isinstance(e.code, str) or 'HARNESS-BUILD-FAILED' not in e.code:
+            raise
+        sched_error, rs, binary = e.code, [], None
     bysig = {}
     for r in rs:
         for v in r.get('violations') or []:
@@ -65,6 +73,14 @@ def run(tier):
     streams = {}
     for r in ra:
         for k, c in (r.get('end_states') or {}).items(): streams[k] = streams.get(k, 0) + c
+    if sched_error:
+        if not merged:
+            print(sched_error); raise SystemExit(3)
+        cov = {'states': len(streams), 'transitions': sum(r.get('ops', 0) for r in ra), 'traces_validated_against_impl': sum(r.get('ops', 0) for r in ra),
+               'api_tier': {'nodes': sum(r.get('sequences', 0) for r in ra), 'resume_points': sum(r.get('ops', 0) for r in ra), 'streams': streams},
+               'exhaustive': False, 'notes': ['scheduler tier not built: ' + sched_error[:200]], 'rule': RULE}
+        vlib.finish('C04', tier, 'model_checking', cov, merged, t0, assumptions=ASSUME)
+        return
     outcomes = {}
     for r in rs:
         for k, c in r['outcomes'].items(): outcomes[k] = outcomes.get(k, 0) + c
